@@ -64,6 +64,15 @@ def run(prop, tier, seed, ctx):
     tlc.require_ok(sres, scfg)
     ctx.add_tlc(sres, "sessions of stateful calls, threaded and not: SameReturn, SameGlobals " + scfg)
     scases = list(enumerate(sres.records))
+    # ... plus deep random sessions (tlc -simulate): ten stateful calls after the run
+    num = 100 if tier == "quick" else 3000
+    simres = tlc.run("EquivSession", "SIM_EquivSession_deep.cfg", workers=4, timeout=600, simulate="num=%d" % num, extra=["-depth", "14", "-seed", str(1000 + seed)])
+    tlc.require_ok(simres, "simulation SIM_EquivSession_deep.cfg")
+    ctx.add_tlc(simres, "simulation (%d sessions of 10 calls) SIM_EquivSession_deep.cfg" % (4 * num))
+    simrecs = list({json.dumps(r, sort_keys=True): r for r in simres.records}.values())
+    if len(simrecs) < num:
+        raise MachineryError("simulation exported only %d sessions" % len(simrecs))
+    scases += list(enumerate(simrecs))
     sm = shard_map("bind.equiv", "session_chunk", scases, chunk=16)
     ctx.cov["replayed_cases"] += len(scases)
     ctx.count(len(scases), ("session:" + json.dumps([r["threaded"], [h["op"] for h in r["hist"]]]) for _, r in scases))
